@@ -57,7 +57,7 @@ def make_job(rng, kind):
     q = rng.random() < 0.4
     fr = linkgen.gen_movie(rng, quarter=q, nframes=rng.randint(2, 6))
     ndim = fr[0].shape[1]
-    sr = linkgen.gen_range(rng, ndim, quarter=q, aniso=False)
+    sr = linkgen.gen_range(rng, ndim, quarter=q, aniso=(ndim > 1 and rng.random() < 0.3))
     return c02.safe_strategy(dict(kind=kind, frames=fr, sr=sr, memory=rng.choice([0, 1, 2, 3]), ndim=ndim, max_size=linkgen.LIMIT,
                                   strategy=rng.choice(['recursive', 'nonrecursive', 'numba'])))
 
@@ -77,7 +77,7 @@ def start(job):
                 return coords[1:]
             return coords
         return find_link_iter(job['images'], 4, 9, memory=job['memory'], before_link=before_link)
-    srf = linkgen.sr_float(job['sr'])
+    srf = job.get('sr_obj', linkgen.sr_float(job['sr']))
     if k == 'iter':
         return tp.link_iter(iter([f.copy() for f in job['frames']]), srf, memory=job['memory'], link_strategy=job['strategy'])
     cols = ['x', 'y', 'z'][:job['ndim']][::-1]
@@ -105,7 +105,7 @@ def whole(job):
     cols = ['x', 'y', 'z'][:job['ndim']][::-1]
     rows = [[*map(float, p), t] for t, f in enumerate(job['frames']) for p in f]
     df = pd.DataFrame(rows, columns=cols + ['frame'])
-    out = tp.link(df, linkgen.sr_float(job['sr']), pos_columns=cols, memory=job['memory'], link_strategy=job['strategy'])
+    out = tp.link(df, job.get('sr_obj', linkgen.sr_float(job['sr'])), pos_columns=cols, memory=job['memory'], link_strategy=job['strategy'])
     return [[int(x) for x in out[out['frame'] == t]['particle'].values] for t in range(len(job['frames']))]
 
 
@@ -115,8 +115,22 @@ def nsteps(job):
     return len(job['images']) if job['kind'] == 'find_link' else len(job['frames'])
 
 
+def share_ranges(jobs):
+    """anisotropic ranges are handed over as float64 ndarrays; jobs with the same range share ONE array object
+    (a caller reusing its parameter array): nobody may modify it"""
+    shared = {}
+    for job in jobs:
+        if job['kind'] != 'find_link' and isinstance(job['sr'], tuple):
+            key = tuple(job['sr'])
+            if key not in shared:
+                shared[key] = np.array([float(r) for r in job['sr']], dtype=np.float64)
+            job['sr_obj'] = shared[key]
+    return shared
+
+
 def run_schedule(jobs, sched):
     from trackpy.linking.utils import SubnetOversizeException
+    shared = share_ranges(jobs)
     gens, outs = {}, {j: [] for j in range(len(jobs))}
     dead = set()
     for j in sched:
@@ -132,6 +146,9 @@ def run_schedule(jobs, sched):
             outs[j].append(advance(job, gens[j]))
         except SubnetOversizeException:
             dead.add(j); outs[j].append(None)
+    for key, arr in shared.items():
+        if [float(x) for x in key] != arr.tolist():
+            outs['_modified_argument'] = (list(map(float, key)), arr.tolist())
     return outs
 
 
@@ -159,10 +176,10 @@ def labels_injective(job, out):
 def jsonable_jobs(jobs, sched, outs=None):
     js = []
     for job in jobs:
-        d = {k: v for k, v in job.items() if k not in ('frames', 'images', 'sr')}
+        d = {k: v for k, v in job.items() if k not in ('frames', 'images', 'sr', 'sr_obj')}
         if 'frames' in job:
             d['frames'] = [f.tolist() for f in job['frames']]
-            d['search_range'] = str(job['sr'])
+            d['search_range'] = [str(x) for x in job['sr']] if isinstance(job['sr'], tuple) else str(job['sr'])
         if 'images' in job:
             d['images'] = 'blob movie %d frames' % len(job['images'])
         js.append(d)
@@ -239,6 +256,15 @@ def _run(chk):
         except Exception as e:
             chk.violation('schedule raised', 'interleaved jobs raised %r' % e, dict(kind='schedule', case=jsonable_jobs(jobs, sched)))
             continue
+        if '_modified_argument' in inter:
+            chk.violation('search_range array modified', 'a linking call modified the search_range array it was given: %s -> %s (other jobs using the same array are affected)' % inter.pop('_modified_argument'),
+                          dict(kind='schedule', case=jsonable_jobs(jobs, sched)))
+        for o in (solo, again):
+            if isinstance(o, dict):
+                o.pop('_modified_argument', None)
+        for v in solo.values():
+            if isinstance(v, dict):
+                v.pop('_modified_argument', None)
         chk.count(('sched', jsonable_jobs(jobs, sched)), len(set(sched)) >= 2 and len(sched) >= 4)
         chk.tally('jobs=%d' % len(jobs))
         for j, job in enumerate(jobs):
@@ -301,7 +327,7 @@ def _replay(chk, path):
             print('replay: find_link job cannot be rebuilt from the replay file; rerun with the recorded seed'); return
         fr = [np.array(f, dtype=float).reshape(len(f), -1) for f in d['frames']]
         ndim = d['ndim']
-        jobs.append(dict(kind=d['kind'], frames=[f.reshape(len(f), ndim) for f in fr], sr=Fraction(d['search_range']), memory=d['memory'], ndim=ndim,
+        jobs.append(dict(kind=d['kind'], frames=[f.reshape(len(f), ndim) for f in fr], sr=(tuple(Fraction(x) for x in d['search_range']) if isinstance(d['search_range'], list) else Fraction(d['search_range'])), memory=d['memory'], ndim=ndim,
                          max_size=linkgen.LIMIT, strategy=d['strategy']))
     inter = run_schedule(jobs, cj['schedule'])
     j = r.get('job', 0)
